@@ -470,6 +470,10 @@ func (t *TaintSpec) Bounded(p *Prog, fn *ssa.Function, s Sink) SinkVerdict {
 			}
 			continue
 		}
+		if t.helperCursorWithinParam(leaf) {
+			// the helper returns a cursor into a slice it was given: at most len of it
+			continue
+		}
 		if t.helperDecides(p, leaf, s.Kind) {
 			// the helper that produced the value bounds it itself (and, where it converts a
 			// 64-bit unsigned value, does so in the unsigned domain) on every return
@@ -749,4 +753,113 @@ func (t *TaintSpec) pureExprOf(v, leaf ssa.Value) bool {
 		return true
 	}
 	return walk(v)
+}
+
+// helperCursorWithinParam: leaf is the result of a helper of the repository that walks one
+// of its slice parameters P with a cursor and returns that cursor: every value it can
+// return is a phi-cursor that starts at the constant 0 and is advanced (cursor + t) only on
+// an edge asserting t <= len(P) - cursor (written either way round). Such a result is at
+// most len(P) whatever t was read from — the caller gave it the slice, so a position
+// inside it is no more than the caller already trusts.
+func (t *TaintSpec) helperCursorWithinParam(leaf ssa.Value) bool {
+	var cl *ssa.Call
+	idx := 0
+	switch y := leaf.(type) {
+	case *ssa.Call:
+		cl = y
+	case *ssa.Extract:
+		if c2, ok := y.Tuple.(*ssa.Call); ok {
+			cl, idx = c2, y.Index
+		}
+	}
+	if cl == nil {
+		return false
+	}
+	h := cl.Call.StaticCallee()
+	if h == nil || h.Blocks == nil || h.Pkg == nil || !strings.HasPrefix(h.Pkg.Pkg.Path(), ModPath) {
+		return false
+	}
+	isAvail := func(v, cur ssa.Value) bool { // len(P) - cur, P a slice parameter of h
+		b, ok := StripConv(v).(*ssa.BinOp)
+		if !ok || b.Op != token.SUB || Strip(b.Y) != Strip(cur) {
+			return false
+		}
+		l, isLen := LenOf(b.X)
+		if !isLen {
+			return false
+		}
+		_, isPar := Strip(l).(*ssa.Parameter)
+		return isPar
+	}
+	okAll, n := true, 0
+	Instrs(h, func(in ssa.Instruction) {
+		r, isR := in.(*ssa.Return)
+		if !isR || idx >= len(r.Results) || in.Block() == h.Recover || !okAll {
+			return
+		}
+		v := Strip(r.Results[idx])
+		if _, isC := v.(*ssa.Const); isC {
+			return
+		}
+		cur, isPhi := v.(*ssa.Phi)
+		if !isPhi {
+			okAll = false
+			return
+		}
+		n++
+		for i, e := range cur.Edges {
+			e = Strip(e)
+			if k, isC := ConstInt(e); isC && k == 0 {
+				continue
+			}
+			b, isB := e.(*ssa.BinOp)
+			if !isB || b.Op != token.ADD || Strip(b.X) != ssa.Value(cur) {
+				okAll = false
+				return
+			}
+			step := b.Y
+			pred := cur.Block().Preds[i]
+			// every path to this back edge passes an edge asserting step <= avail
+			fits := &Atom{Name: "step fits what is left", Match: func(cond ssa.Value) (int, int) {
+				op, x, y, ok := Cmp(cond)
+				if !ok {
+					return 0, 0
+				}
+				if Strip(y) == Strip(step) || Same(y, step) {
+					x, y, op = y, x, Swap(op)
+				}
+				if !(Strip(x) == Strip(step) || Same(x, step)) {
+					return 0, 0
+				}
+				av := y
+				if ph, isPh := Strip(av).(*ssa.Phi); isPh { // a named local for it
+					_ = ph
+				}
+				if !isAvail(av, cur) {
+					return 0, 0
+				}
+				switch op {
+				case token.LEQ, token.LSS:
+					return 1, -1
+				case token.GTR, token.GEQ:
+					if op == token.GEQ {
+						return 0, 0 // step >= avail admits step > avail
+					}
+					return -1, 1
+				}
+				return 0, 0
+			}}
+			cut, per := CutEdges(h, Lit{A: fits, Want: true})
+			if per[0] == 0 || ReachAvoiding(h, h.Blocks[0], map[*ssa.BasicBlock]bool{pred: true}, cut) != nil {
+				// the cursor's own block is reachable from entry without the test (first
+				// iteration) — what matters is the edge pred→header: pred must lie behind a
+				// fits edge counted from the header
+				if !(per[0] > 0 && ReachAvoiding(h, cur.Block(), map[*ssa.BasicBlock]bool{pred: true}, cut) == nil) {
+					okAll = false
+					return
+				}
+			}
+		}
+	})
+	return okAll && n > 0
 }
